@@ -186,6 +186,7 @@ DEPTH = {'quick': 6, 'thorough': 9}
 DEVK = {'quick': 1, 'thorough': 2}
 DEV_KINDS = ('coop', 'lateclose', 'silent', 'refuse')
 QUICK_DEV = (2, 10)      # quick tier: k deviations within the first n steps
+THOROUGH_DEV = (2, 16)   # thorough: the full menu makes unbounded k=2 a multi-hour run (~1 M executions per script)
 
 
 def run(tier, seed, prop=PROP, harness=None):
@@ -197,7 +198,7 @@ def run(tier, seed, prop=PROP, harness=None):
     for cfg in CONFIGS[tier]:
         explore.bfs(h, cfg, DEPTH[tier], col, seed=seed, result=res, merge_all=(tier == 'thorough'))
         for kind in DEV_KINDS:
-            kk, win = QUICK_DEV if tier == 'quick' else (DEVK[tier], None)
+            kk, win = QUICK_DEV if tier == 'quick' else THOROUGH_DEV
             st = explore.deviations(h, cfg, kk, 45, col, script_kw={'kind': kind}, window=win)
             dev.append({'cfg': cfg, 'script': kind, 'executions': st['executions'], 'events': st['events'], 'k': st['k'], 'window': st['window']})
     explore.close_pool()
